@@ -149,6 +149,18 @@ def run(ctx):
                 ctx.violation(dict(kind="row_perturbation", **key),
                               f"row {keep} changed when rows {s['perturb']} of y0 / Brownian motion were changed: "
                               f"max diff {float((per[:, keep] - ref[:, keep]).abs().max()):.3e}", replay=s)
+            # (1b) the other rows hold non-finite states (a path that diverged): still nothing of it in the kept row
+            y2 = y0.clone()
+            for j in s["perturb"]:
+                y2[j - 1] = float("nan") if j % 2 else float("inf")
+            import warnings as _w
+            with _w.catch_warnings():
+                _w.simplefilter("ignore")
+                nf = solve(s, y2, ident, 2 * Bsz, ts, 0.125, ent)
+            if not torch.equal(nf[:, keep], ref[:, keep]):
+                ctx.violation(dict(kind="row_nonfinite_neighbour", **key),
+                              f"row {keep} changed when rows {s['perturb']} of y0 were set to nan / inf: max diff "
+                              f"{float((nf[:, keep] - ref[:, keep]).abs().max()):.3e}", replay=s)
             # (2) permutation equivariance
             perm = [p - 1 for p in s["perm"]]
             pm = solve(s, y0[perm], perm, 2 * Bsz, ts, 0.125, ent)
